@@ -28,17 +28,17 @@ Section Spec.
     mk l (map (fun x => (key x, x)) l).
 
   (* may x be added to l? *)
-  Definition admit (l : list item) (x : item) : res unit :=
+  Definition may_add (l : list item) (x : item) : res unit :=
     if valid x then if has_key (key x) l then Err ValueErr else Ok tt
     else Err TypeErr.
 
   (* all-or-nothing concatenation; first offending item decides the error *)
-  Fixpoint admit_all (l : list item) (xs : list item) : res (list item) :=
+  Fixpoint may_add_all (l : list item) (xs : list item) : res (list item) :=
     match xs with
     | [] => Ok l
-    | x :: t => match admit l x with
+    | x :: t => match may_add l x with
                 | Err e => Err e
-                | Ok _ => admit_all (l ++ [x]) t
+                | Ok _ => may_add_all (l ++ [x]) t
                 end
     end.
 
@@ -92,16 +92,16 @@ Section Spec.
                    | Some n => delete_at l n
                    | None => (Err KeyErr, l) end
     | ODelSlice => (Err RuntimeErr, l)
-    | OInsert i x => match admit l x with
+    | OInsert i x => match may_add l x with
                      | Err e => (Err e, l)
                      | Ok _ => (Ok RNone, insert_at (clamp_index (zlen l) i) x l) end
-    | OAppend x => match admit l x with
+    | OAppend x => match may_add l x with
                    | Err e => (Err e, l)
                    | Ok _ => (Ok RNone, l ++ [x]) end
-    | OExtend xs | OIAdd xs => match admit_all l xs with
+    | OExtend xs | OIAdd xs => match may_add_all l xs with
                                | Err e => (Err e, l)
                                | Ok l' => (Ok RNone, l') end
-    | OExtendSelf => match admit_all l l with
+    | OExtendSelf => match may_add_all l l with
                      | Err e => (Err e, l)
                      | Ok l' => (Ok RNone, l') end
     | OPop i => let idx := match i with Some z => z | None => -1 end in
